@@ -13,20 +13,30 @@ var hits [1 << 17]uint8
 
 func Hit(i int) { hits[i] = 1 }
 
+var name string
+
+// Flush writes the counters of this process (no-op outside coverage runs).
+func Flush() {
+	if name == "" {
+		return
+	}
+	b := make([]byte, len(hits))
+	copy(b, hits[:])
+	if os.WriteFile(name+".tmp", b, 0o644) == nil {
+		_ = os.Rename(name+".tmp", name)
+	}
+}
+
 func init() {
 	dir := os.Getenv("VERIF_COVDIR")
 	if dir == "" {
 		return
 	}
-	name := filepath.Join(dir, fmt.Sprintf("%d-%d.bin", os.Getpid(), time.Now().UnixNano()))
+	name = filepath.Join(dir, fmt.Sprintf("%d-%d.bin", os.Getpid(), time.Now().UnixNano()))
 	go func() {
 		for {
 			time.Sleep(700 * time.Millisecond)
-			b := make([]byte, len(hits))
-			copy(b, hits[:])
-			if os.WriteFile(name+".tmp", b, 0o644) == nil {
-				_ = os.Rename(name+".tmp", name)
-			}
+			Flush()
 		}
 	}()
 }
